@@ -257,3 +257,74 @@ from .common import lazy  # noqa: E402
 RULES += [lazy("C15", "r2_siblings", "each named reduction reaches the back-end function of that name with the operands unchanged"),
           lazy("C15", "r3_multi_arg", "multi-argument reductions stack on a new leading axis and reduce along it"),
           lazy("C10", "r8_placeholders", "stack / concatenate / flatten rely on the i-th input being passed at the i-th position")]
+
+
+def r7_positional_pairing(ctx):
+    """C13.R7: node arrays are labelled (xarray): two of them may be combined element by element through their raw buffers (`.data[i]`,
+    `.values[i]`, zipped `.flat`) only after they were brought to the same dimension order — an unconditional xr.broadcast / xr.align /
+    transpose / broadcast_like / reindex_like of the operands, or a guard that compares their `.dims` tuples.  xarray's own operations
+    (concat, join, arithmetic) align by dimension name; raw buffers pair by position, so an operand declared as (step, param) against one
+    declared as (param, step) silently pairs node (i, j) with node (j, i) and every coordinate but the diagonal denotes the wrong value.
+    Structural rule over every function of earthkit.workflows.fluent."""
+    import ast as _ast
+    repo = ctx.repo
+    RAW = {"data", "values", "flat"}
+    ALIGN = {"broadcast", "align", "transpose", "broadcast_like", "reindex_like"}
+    n = npair = 0
+    for fi in repo.all_funcs():
+        if fi.module.name != "earthkit.workflows.fluent" or isinstance(fi.node, _ast.Lambda):
+            continue
+        n += 1
+
+        def raw_base(e):
+            """X for X.data / X.values / X.data.flat / X.to_numpy() ...; None otherwise"""
+            while isinstance(e, _ast.Call) and isinstance(e.func, _ast.Attribute) and e.func.attr in ("flatten", "ravel", "to_numpy", "tolist"):
+                e = e.func.value
+                if isinstance(e, _ast.Name):
+                    return None
+            seen_raw = False
+            while isinstance(e, _ast.Attribute) and e.attr in RAW:
+                seen_raw = True
+                e = e.value
+            return _ast.unparse(e) if seen_raw else None
+        groups = {}
+        for node in _ast.walk(fi.node):
+            if isinstance(node, _ast.Subscript) and isinstance(node.ctx, _ast.Load):
+                b = raw_base(node.value)
+                if b is not None:
+                    groups.setdefault(("idx", _ast.unparse(node.slice)), {})[b] = node
+            elif isinstance(node, _ast.Call) and isinstance(node.func, _ast.Name) and node.func.id == "zip":
+                bs = {raw_base(a): a for a in node.args}
+                bs.pop(None, None)
+                if len(bs) >= 2:
+                    groups[("zip", node.lineno)] = {k: node for k in bs}
+        for key, bases in groups.items():
+            if len(bases) < 2:
+                continue
+            npair += 1
+            names = sorted(bases)
+            site = next(iter(bases.values()))
+            # evidence of alignment: unconditional (function-body level) assignment of the operands from an aligning call, or a .dims tuple comparison
+            aligned = set()
+            for st_ in fi.node.body:
+                for sub in ([st_] if isinstance(st_, (_ast.Assign, _ast.AnnAssign)) else []):
+                    val = sub.value
+                    if isinstance(val, _ast.Call) and isinstance(val.func, _ast.Attribute) and val.func.attr in ALIGN:
+                        tg = sub.targets[0] if isinstance(sub, _ast.Assign) else sub.target
+                        for t in (tg.elts if isinstance(tg, _ast.Tuple) else [tg]):
+                            aligned.add(_ast.unparse(t))
+            dims_guard = any(isinstance(c, _ast.Compare) and all(isinstance(x, _ast.Attribute) and x.attr == "dims" for x in [c.left] + c.comparators)
+                             and {_ast.unparse(x.value) for x in [c.left] + c.comparators} >= set(names) for c in _ast.walk(fi.node))
+            if set(names) <= aligned or dims_guard:
+                ctx.ok("C13.R7", loc(fi, site), f"{fi.name}: raw buffers of {names} paired after alignment")
+            else:
+                ctx.violation("C13.R7", fi.qual, loc(fi, site), "positional pairing of labelled node arrays",
+                              f"{fi.qual} pairs the raw buffers of {names} by position ({'same index ' + key[1] if key[0] == 'idx' else 'zip'}) without first bringing them to one dimension "
+                              f"order on every path (aligned unconditionally: {sorted(aligned) or 'none'}): operands whose dimensions are declared in a different order are "
+                              f"paired crosswise — node (i, j) with node (j, i) — and the result denotes the wrong arrays off the diagonal")
+    ctx.floor("C13.R7.functions", n, 30)
+    if not npair:
+        ctx.ok("C13.R7", "src/earthkit/workflows/fluent.py", f"{n} functions: no two node arrays are combined through their raw buffers (xarray operations align by dimension name)")
+
+
+RULES.append(r7_positional_pairing)
